@@ -107,3 +107,41 @@ Fixpoint show_val (v : val) : string :=
 
 Definition show_res (r : res val) : string :=
   match r with Ok v => show_val v | Err e => "ERR:" ++ show_err e end.
+
+(* ---- JSON rendering (parsed by the Python harness) ----
+   ints {"i":"12"}, floats {"f":"n/d"|"inf"|"-inf"|"nan"}, dates {"d":"730851"},
+   bools true/false, None null, strings "…", lists […], dicts {"s:key"|"i:3"|"d:N": …} *)
+Definition json_key (k : pkey) : string :=
+  match k with
+  | KInt z => "i:" ++ show_z z | KStr s => "s:" ++ s | KDate d => "d:" ++ show_z d
+  end.
+
+Definition q1 : string := String (Ascii.ascii_of_nat 34) EmptyString.
+
+Fixpoint json_val (v : val) : string :=
+  match v with
+  | VInt z => "{" ++ q1 ++ "i" ++ q1 ++ ":" ++ q1 ++ show_z z ++ q1 ++ "}"
+  | VFloat x => "{" ++ q1 ++ "f" ++ q1 ++ ":" ++ q1 ++ show_xq x ++ q1 ++ "}"
+  | VBool b => if b then "true" else "false"
+  | VDate d => "{" ++ q1 ++ "d" ++ q1 ++ ":" ++ q1 ++ show_z d ++ q1 ++ "}"
+  | VStr s => q1 ++ s ++ q1
+  | VNone => "null"
+  | VList l => "[" ++ (fix go (l : list val) : string :=
+                         match l with
+                         | [] => ""
+                         | [x] => json_val x
+                         | x :: r => json_val x ++ "," ++ go r
+                         end) l ++ "]"
+  | VDict l => "{" ++ (fix go (l : list (pkey * val)) : string :=
+                         match l with
+                         | [] => ""
+                         | [(k, x)] => q1 ++ json_key k ++ q1 ++ ":" ++ json_val x
+                         | (k, x) :: r => q1 ++ json_key k ++ q1 ++ ":" ++ json_val x ++ "," ++ go r
+                         end) l ++ "}"
+  end.
+
+Definition json_res (r : res val) : string :=
+  match r with
+  | Ok v => json_val v
+  | Err e => "{" ++ q1 ++ "err" ++ q1 ++ ":" ++ q1 ++ show_err e ++ q1 ++ "}"
+  end.
